@@ -13,6 +13,7 @@
 #pragma once
 #include "../ref/refpolyglot.h"
 #include "../ref/refsolve.h"
+#include "../gen/matepool.h"
 #include "bridge.h"
 #include "registry.h"
 #include "score.h"
@@ -174,6 +175,17 @@ inline bool run_inner(Tape& t, Report& rep, Focus focus)
             else
             {
                 gen::Root g = t.chance(1, 3) ? gen::gen_game(t, &rep, 30) : gen::gen_root(t, &rep, 30);
+                if (focus == F_C08 && t.chance(2, 3))
+                {
+                    // C08's observable needs positions with a mate in one: the special-move mate pool
+                    const mp::Pool& P = mp::pool(uint64_t(opt_int("zseed", 1)), opt_int("matepool_tries", 150000), size_t(opt_int("matepool_cap", 16)));
+                    int k = int(t.choose(mp::NKIND));
+                    if (!P.k[k].empty())
+                    {
+                        g = gen::Root();
+                        g.start = g.cur = P.k[k][t.choose(uint32_t(P.k[k].size()))].p;
+                    }
+                }
                 M.set(g.start, g.moves);
                 M.line_start = g.start;
                 M.line_moves = g.moves;
@@ -349,7 +361,7 @@ inline bool run_inner(Tape& t, Report& rep, Focus focus)
                     return rep.fail("limits:uci:time_budget_exceeded", "`" + go + "` ran for " + std::to_string(v / C.rate.load()) + " virtual ms, its own budget is " + std::to_string(budget_ms) +
                                                                            " ms\n session: " + transcript);
             }
-            if (focus == F_C08 && depthLimit && isLegal)
+            if (focus == F_C08 && depthLimit)
             {
                 std::vector<ref::Move> m1 = ref::mates_in_one(M.cur);
                 bool restricted = !subset.empty();
